@@ -486,6 +486,8 @@ class Feedback:
 
     @classmethod
     def _restore_overrides(cls):
+        if '_pools' in cls.__dict__:
+            del cls._pools
         backups = cls.__dict__.get('_override_backups')
         if not backups:
             return
@@ -499,21 +501,28 @@ class Feedback:
 
 
     @classmethod
-    def override_for_pool(cls, pool, **fields):
+    def override_for_pool(cls, pool, report=MAIN_REPORT, **fields):
         if isinstance(pool, str):
             pool = [pool]
+        # Each class keeps its own pool overrides (the class-level default dict is
+        # shared by every feedback class) and the report forgets them when cleared
+        if '_pools' not in cls.__dict__:
+            cls._pools = {}
         for each_pool in pool:
             if each_pool not in cls._pools:
                 cls._pools[each_pool] = {}
             cls._pools[each_pool].update(fields)
+        report.override_feedback(cls)
 
     def _finalize(self):
         # TODO: Move this to be earlier, when we create a feedback.
         #       Otherwise there might be fields that are not interpolated correctly!
-        possible_overrides = self._pools.get(self.report.chosen_pool)
-        if possible_overrides:
-            for key, value in possible_overrides.items():
-                setattr(self, key, value)
+        # Overrides of parent classes apply too, most specific class last
+        for klass in reversed(type(self).__mro__):
+            possible_overrides = klass.__dict__.get('_pools', {}).get(self.report.chosen_pool)
+            if possible_overrides:
+                for key, value in possible_overrides.items():
+                    setattr(self, key, value)
 
 
 class FeedbackResponse(Feedback):
